@@ -13,7 +13,10 @@ RULE = ("genesis: (a) n random all-module histories (12-52 blocks of the C09 gen
         "pending+successful+failed prophecies, whitelist, peggy tokens, distributions with pending/completed/failed records, "
         "claims, margin positions, registry entries, admin accounts) -> app.ExportAppStateAndValidators -> fresh app "
         "InitChain at the exported height + Commit -> export again; per Sifchain module `chk docEq` on the two JSON sections, "
-        "`chk epochsRebased` for epochs; ~60 gRPC queries through baseapp.Query on both apps.  (b) 3n reflection-generated "
+        "`chk epochsRebased` for epochs; ~60 gRPC queries through baseapp.Query on both apps; the imported chain's STORE against the original chain's store, "
+        "key by key, for the 13 carried record collections (admin accounts, pools, providers, buckets, pending/completed/failed distribution records, distributions, "
+        "claims, blacklist, positions, prophecies, registry) — not only export vs re-export; histories contain same-block create/run/create distributions (one "
+        "distributor, two runners, overlapping recipient: a COMPLETED and a PENDING record with the same name, type and recipient).  (b) 3n reflection-generated "
         "well-formed genesis documents (every field of every GenesisState populated, unique keys, ValidateGenesis ok): "
         "import -> export equals the document as a set of items, import again -> export identical.  non-trivial = section "
         "or answer longer than 40 bytes")
@@ -26,6 +29,9 @@ TRUSTED_BASE = [
     "thin hand-written Lean model of a prefix-keyed store and of export/init for collection-under-prefix modules "
     "(Sif/Model/Genesis.lean); encodings (protobuf, amino/proto JSON, sdk number types) are NOT modelled: the real "
     "assurance for them is the differential export/import run (translation validation, a test)",
+    "the list of carried collections/prefixes compared in the raw store comparison (harness/replay/genesis.go carriedCollections) is hand-written; "
+    "single-value keys (params, pause, receiver, whitelists) are compared through export and queries only, because import legitimately creates keys the "
+    "original chain never wrote (e.g. ethbridge pause)",
     "Go harness harness/replay/genesis.go, gendoc.go (canonicalisation: JSON compaction; for documents: arrays as sets); "
     "line protocol; drv_genesis parser",
     "cosmos-sdk module manager, baseapp.InitChain/Commit/Query, IAVL (exercised, not modelled)",
